@@ -194,7 +194,8 @@ class MCLevyCopulaSimulation:
                 for j in range(i + 1, dimension):
                     adj_matrix[i, j] = adj_matrix[j, i] = next(outputs)
 
-        variance_matrix = np.dot(adj_matrix, adj_matrix.T) + model_variance
+        # vol_adjustment_ij returns the (co)variances of the small jumps: they add to the squared diffusion coefficients
+        variance_matrix = adj_matrix + model_variance
         diffusion_matrix = scipy.linalg.sqrtm(variance_matrix)
         self.diffusion_matrix = diffusion_matrix
 
